@@ -1,17 +1,19 @@
 import OjgVerif.Diff.Lemmas
+import OjgVerif.Gen.AltDiff
 /-! # C19 — Diff, Compare and Match report exactly the real differences
 
 Statements are about the model of `alt/diff.go` (`Diff/Model.lean`), which the correspondence run
 ties to the Go code, for every Go map iteration order (`OrdOK ord`) and both data flavours.
-`Dev` names the four places where the pinned code deviated from the property; the theorems are
-proved for every `D : Dev` on the inputs that the switched-on deviations cannot touch (`Clear`).
-For `Dev.fixed` `Clear` is empty and the statements are the property at full strength.
-Three of the four defects are repaired in the repository (`fix:` commits c0c8224, 2f372fe, 36b721b);
-`Dev.current` — the code as it is now — keeps only `floatRound` (known finding C19-int-float-2p53):
-`C19_current` is the property at full strength with the single exclusion "the integers of the right
-tree are below 2^53 in magnitude", `C19_full_false` refutes the statement without it. The per-flag
-witnesses (`full_false_lastIndex`, `_tailSkip`, `_genRoot`) stay as the record of the repaired
-defects: they are about the model with the flag switched on. -/
+`Dev` names the four places where the pinned code (d4b55cf) deviated from the property; the
+theorems are proved for every `D : Dev` on the inputs that the switched-on deviations cannot touch
+(`Clear`). All four defects are repaired in the repository (`fix:` commits c0c8224, 2f372fe,
+36b721b, 23c2317), so `Dev.current` — the code as it is now — has every flag off:
+`C19_current` / `C19_holds` are the property at full strength, with no exclusion (the only
+hypotheses are the domain of the model: `OrdOK ord`, and integers of the left tree that fit int64).
+`source_is_current` ties `Dev.current` to the regenerated source facts (`Gen/AltDiff.lean`): a tree
+that loses one of the repairs breaks it. The `full_false_*` theorems keep one kernel-evaluated
+witness per deviation as the record of the repaired defects (they are about the model with the flag
+switched on); `C19_full_false_before_23c2317` is the former `C19_full_false`. -/
 namespace OjgVerif.C19
 open OjgVerif OjgVerif.Diff
 
@@ -152,11 +154,11 @@ theorem full_fixed : Full Dev.fixed := by
   exact ⟨diff_exact hord ha hc, diff_empty hord ha hc, compare_none _ _ _ _ _ _, fun _ => compare_mem _ _ _ _ _ _,
     match_iff ha (fun h => (by simp [Dev.fixed] at h)) (fun h => (by simp [Dev.fixed] at h))⟩
 
-/-- C19 for the code as it is -/
+/-- C19 for the code as it is now -/
 def C19_full : Prop := Full Dev.current
 
-/-- the code as it is satisfies C19 on every input that is clear of the deviations still switched on
-(generic form; `C19_current` below spells it out for today's `Dev.current`) -/
+/-- the code satisfies C19 on every input that is clear of the deviations `Dev.current` switches on
+(generic form, kept for scratch trees; today `Clear Dev.current` is void, see `clear_current`) -/
 theorem C19_partial {ord : List Bytes → List Bytes} (hord : OrdOK ord) {fl : Flavour} {a b : JV} {ign : List Path}
     (ha : Int64Tree a) (hc : Clear Dev.current fl a b ign) :
     (∀ p, p ∈ (diff Dev.current ord fl a b ign).map norm ↔ LeafDiff a b p ∧ ¬ Ignored ign p) ∧
@@ -167,21 +169,19 @@ theorem C19_partial {ord : List Bytes → List Bytes} (hord : OrdOK ord) {fl : F
   ⟨diff_exact hord ha hc, diff_empty hord ha hc, compare_none _ _ _ _ _ _, fun _ => compare_mem _ _ _ _ _ _,
     match_iff ha hc.flt hc.gen⟩
 
-/-- every exclusion but the 2^53 one is void for the code as it is now -/
-theorem clear_current {fl : Flavour} {a b : JV} {ign : List Path} (hb : AllInts IsFloatExact b) :
-    Clear Dev.current fl a b ign :=
-  ⟨fun h => (by simp [Dev.current] at h), fun h => (by simp [Dev.current] at h), fun _ => hb,
-    fun h => (by simp [Dev.current] at h)⟩
+/-- no exclusion is left for the code as it is now -/
+theorem clear_current (fl : Flavour) (a b : JV) (ign : List Path) : Clear Dev.current fl a b ign :=
+  ⟨fun h => (by simp [Dev.current] at h), fun h => (by simp [Dev.current] at h),
+    fun h => (by simp [Dev.current] at h), fun h => (by simp [Dev.current] at h)⟩
 
-/-- **C19 for the code as it is now**: for every map iteration order, both data flavours, every
-ignore set and every pair of trees (integers of the left tree fitting int64), provided the
-integers of the right tree are below 2^53 in magnitude (the only place they matter is a comparison
-with a float on the left, which goes through `float64(int)`): Diff returns exactly the leaf
-differences that no ignore path covers — hence it is empty iff the trees are equivalent modulo the
-ignore paths, sound and complete —, Compare is nil iff Diff is empty and otherwise one of Diff's
-paths, and Match is the fingerprint relation. No exclusion on ignore paths or generic roots. -/
+/-- **C19 for the code as it is now, at full strength**: for every map iteration order, both data
+flavours, every ignore set and every pair of trees (integers of the left tree fitting int64 — the
+domain of the model, not an exclusion): Diff returns exactly the leaf differences that no ignore
+path covers — hence it is empty iff the trees are equivalent modulo the ignore paths, sound and
+complete —, Compare is nil iff Diff is empty and otherwise one of Diff's paths, and Match is the
+fingerprint relation. No hypothesis on ignore paths, generic roots or magnitudes. -/
 theorem C19_current {ord : List Bytes → List Bytes} (hord : OrdOK ord) {fl : Flavour} {a b : JV} {ign : List Path}
-    (ha : Int64Tree a) (hb : AllInts IsFloatExact b) :
+    (ha : Int64Tree a) :
     (∀ p, p ∈ (diff Dev.current ord fl a b ign).map norm ↔ LeafDiff a b p ∧ ¬ Ignored ign p) ∧
     (diff Dev.current ord fl a b ign = [] ↔ EquivModulo ign a b) ∧
     (∀ p, p ∈ diff Dev.current ord fl a b ign →
@@ -190,17 +190,41 @@ theorem C19_current {ord : List Bytes → List Bytes} (hord : OrdOK ord) {fl : F
     (Diff.compare Dev.current ord fl a b ign = none ↔ diff Dev.current ord fl a b ign = []) ∧
     (∀ p, Diff.compare Dev.current ord fl a b ign = some p → p ∈ diff Dev.current ord fl a b ign) ∧
     (altMatch Dev.current fl a b = true ↔ FpMatch a b) :=
-  have hc : Clear Dev.current fl a b ign := clear_current hb
+  have hc : Clear Dev.current fl a b ign := clear_current fl a b ign
   ⟨diff_exact hord ha hc, diff_empty hord ha hc, fun _ hp => diff_sound hord ha hc hp,
     fun _ hq hi => diff_complete hord ha hc hq hi, compare_none _ _ _ _ _ _, fun _ => compare_mem _ _ _ _ _ _,
     match_iff ha hc.flt hc.gen⟩
 
-/-- without ignore paths, for the code as it is now: Diff is empty exactly when the trees are equal
-up to numeric width and null-versus-absent members -/
+/-- without ignore paths: Diff is empty exactly when the trees are equal up to numeric width and
+null-versus-absent members -/
 theorem C19_current_equiv {ord : List Bytes → List Bytes} (hord : OrdOK ord) {fl : Flavour} {a b : JV}
-    (ha : Int64Tree a) (hb : AllInts IsFloatExact b) :
-    diff Dev.current ord fl a b [] = [] ↔ Equiv a b :=
-  diff_empty_iff_equiv hord ha (clear_current hb)
+    (ha : Int64Tree a) : diff Dev.current ord fl a b [] = [] ↔ Equiv a b :=
+  diff_empty_iff_equiv hord ha (clear_current fl a b [])
+
+/-- the full statement holds for the code as it is now -/
+theorem C19_holds : C19_full := by
+  intro ord hord fl a b ign ha
+  have h := C19_current (ord := ord) hord (fl := fl) (a := a) (b := b) (ign := ign) ha
+  exact ⟨h.1, h.2.1, h.2.2.2.2.1, h.2.2.2.2.2.1, h.2.2.2.2.2.2⟩
+
+/-! ## the source carries the four repairs -/
+
+/-- the deviation set read off the regenerated facts about `alt/diff.go` (`tools/extract/diff.go`):
+* `lastIndex` unless the child ignore paths are built per element, inside the element loop;
+* `floatRound` unless `floatEqual` exists, compares through `asInt`, and is what the float cases of
+  both `diff` and `Match` call;
+* `tailSkip` unless the `len(t1) <= i` test comes first in the element loop and consults `ignoreIndex`;
+* `genRoot` unless `gen.Int` / `gen.Float` are named in the integer / float cases of both switches. -/
+def Dev.ofSource : Dev where
+  lastIndex := !Gen.AltDiff.arrChildIgnoresInsideLoop
+  floatRound := !(Gen.AltDiff.hasFloatEqual && Gen.AltDiff.floatEqualCalls.contains "asInt" &&
+    Gen.AltDiff.diffFloatCaseCalls.contains "floatEqual" && Gen.AltDiff.matchFloatCaseCalls.contains "floatEqual")
+  tailSkip := !(Gen.AltDiff.arrLengthTestFirst && Gen.AltDiff.arrLengthTestHonoursIgnore)
+  genRoot := !(Gen.AltDiff.diffIntCaseTypes.contains "gen.Int" && Gen.AltDiff.matchIntCaseTypes.contains "gen.Int" &&
+    Gen.AltDiff.diffFloatCaseTypes.contains "gen.Float" && Gen.AltDiff.matchFloatCaseTypes.contains "gen.Float")
+
+/-- the source the check runs against has the shape of the model's `Dev.current` -/
+theorem source_is_current : Dev.ofSource = Dev.current := by decide
 
 /-! ## witnesses: each deviation alone refutes the full statement -/
 
@@ -227,19 +251,11 @@ theorem w1a_int64 : Int64Tree w1a := by
     simp only [List.mem_cons, List.not_mem_nil, or_false] at hkv
     rcases hkv with rfl | rfl <;> exact AllInts.int _ (by decide)
 
-theorem w1b_exact : AllInts IsFloatExact w1b := by
-  refine AllInts.arr _ (fun x hx => ?_)
-  simp only [List.mem_cons, List.not_mem_nil, or_false] at hx
-  rcases hx with rfl | rfl <;>
-  · refine AllInts.obj _ (fun kv hkv => ?_)
-    simp only [List.mem_cons, List.not_mem_nil, or_false] at hkv
-    rcases hkv with rfl | rfl <;> exact AllInts.int _ (by decide)
-
-/-- a non-trivial instance of the one remaining hypothesis, on the former multi-index witness: the
-ignore paths `Path{0,"a"}, Path{1,"b"}` need no exclusion any more -/
+/-- an instance on the former multi-index witness: the ignore paths `Path{0,"a"}, Path{1,"b"}` need
+no exclusion any more -/
 example : (∀ p, p ∈ (diff Dev.current id .simple w1a w1b w1ign).map norm ↔
     LeafDiff w1a w1b p ∧ ¬ Ignored w1ign p) :=
-  (C19_current ordOK_id w1a_int64 w1b_exact).1
+  (C19_current ordOK_id w1a_int64).1
 
 /-- before c0c8224: `Diff(a, b, Path{0,"a"}, Path{1,"b"})` is `[[0 a]]`: the ignored `[0].a` is reported … -/
 theorem w1_model : diff ⟨true, false, false, false⟩ id .simple w1a w1b w1ign = [[.idx 0, .key kA]] := by
@@ -263,11 +279,11 @@ def w2a : JV := .flt [57, 48, 48, 55, 49, 57, 57, 50, 53, 52, 55, 52, 48, 57, 57
 def w2b : JV := .int 9007199254740993
 
 theorem w2_model : diff ⟨false, true, false, false⟩ id .simple w2a w2b [] = [] := by decide +kernel
-theorem w2_current : diff Dev.current id .simple w2a w2b [] = [] := by decide +kernel
+theorem w2_pinned : diff Dev.pinned id .simple w2a w2b [] = [] := by decide +kernel
 
 theorem w2_leaf : LeafDiff w2a w2b [] := LeafDiff.here (by decide +kernel)
 
-/-- `Diff(float64(1<<53), int64(1<<53+1))` is empty although the numbers differ -/
+/-- before 23c2317: `Diff(float64(1<<53), int64(1<<53+1))` is empty although the numbers differ -/
 theorem full_false_floatRound : ¬ Full ⟨false, true, false, false⟩ := by
   intro h
   have h1 := (h id ordOK_id .simple w2a w2b [] (AllInts.flt _)).1 []
@@ -275,14 +291,20 @@ theorem full_false_floatRound : ¬ Full ⟨false, true, false, false⟩ := by
   have := h1.2 ⟨w2_leaf, by decide⟩
   simp at this
 
-/-- the code as it is does not satisfy C19 at full strength (witness: the 2^53 comparison, a known
-finding that stays) -/
-theorem C19_full_false : ¬ C19_full := by
+/-- the former `C19_full_false`: until 23c2317 `Dev.current` was `⟨false, true, false, false⟩` and
+the code did not satisfy C19 at full strength -/
+theorem C19_full_false_before_23c2317 : ¬ Full ⟨false, true, false, false⟩ := full_false_floatRound
+
+/-- the pinned code (all four deviations) did not satisfy C19 -/
+theorem full_false_pinned : ¬ Full Dev.pinned := by
   intro h
   have h1 := (h id ordOK_id .simple w2a w2b [] (AllInts.flt _)).1 []
-  rw [w2_current] at h1
+  rw [w2_pinned] at h1
   have := h1.2 ⟨w2_leaf, by decide⟩
   simp at this
+
+/-- after 23c2317 the same pair is reported: the model of the code as it is now returns `[[nil]]` -/
+theorem w2_now : diff Dev.current id .simple w2a w2b [] = [here] := by decide +kernel
 
 /-- `[1,2,3]` against `[1]` with `Path{1}` ignored -/
 def w3a : JV := .arr [.int 1, .int 2, .int 3]
@@ -334,8 +356,8 @@ example : IdxSafe [[.key kA, .idx 1, .key kB], [.key kB], [.idx 0]] := by
   simp only [List.mem_cons, List.not_mem_nil, or_false] at hg
   rcases hg with rfl | rfl | rfl <;> rfl
 
-/-- the whole of `Clear` for the code as it is, on a case with a real difference and an ignore path -/
-example : Clear Dev.current .simple w1a w1b [[.wild, .key kB]] :=
+/-- the whole of `Clear` for the pinned code, on a case with a real difference and an ignore path -/
+example : Clear Dev.pinned .simple w1a w1b [[.wild, .key kB]] :=
   ⟨fun _ => Or.inl (fun g hg => by simp only [List.mem_cons, List.not_mem_nil, or_false] at hg; subst hg; rfl),
    fun _ g hg => by simp only [List.mem_cons, List.not_mem_nil, or_false] at hg; subst hg; rfl,
    fun _ => by
